@@ -213,6 +213,13 @@ func (spec *Spec) ParsePatterns(ctx context.Context) error {
 			b.Pattern = x
 		}
 	}
+
+	// The patterns are parsed now.  Parsing them again (Compile
+	// does, and so does compiling a second time or after a
+	// reload) would take a pattern that is a string -- a bare
+	// variable, say -- for pattern text.
+	spec.PatternSyntax = ""
+
 	return nil
 }
 
